@@ -191,6 +191,9 @@ func runCheck(o CheckOpts) int {
 		for _, e := range t.contractErrors {
 			internalErrs = append(internalErrs, e)
 		}
+		for _, e := range dedupe(t.staleClauses) {
+			unsupported = append(unsupported, fmt.Sprintf("%s::%s: stale contract clause, NOT decided (the code no longer has a variable it names): %s", c.PkgPath, c.Key, e))
+		}
 		// unmatched loop / site specs are contract errors (stale contract)
 		for ord := range c.Loops {
 			found := false
@@ -213,6 +216,15 @@ func runCheck(o CheckOpts) int {
 			Intrinsics: keysOf(t.intrinsicsUsed), PureCalls: keysOfInt(t.pureCalls), ConstGlobals: keysOf(t.globalsUsed)}
 		for _, l := range c.Loops {
 			fr.Invariants += len(l.Invariants)
+		}
+		if len(t.staleClauses) > 0 {
+			// a contract that names variables the function no longer has says
+			// nothing reliable about this version of the function: none of its
+			// obligations is decided (reported, never as a violation)
+			unsupported = append(unsupported, fmt.Sprintf("%s::%s: NOT decided in this run: the contract is stale with respect to the code (see the clauses above)", c.PkgPath, c.Key))
+			for _, ob := range t.obls {
+				ob.Broken = true
+			}
 		}
 		for _, ob := range t.obls {
 			if ob.Broken {
